@@ -401,3 +401,75 @@ func HasCycle(p *Prog) bool {
 	}
 	return dfs(START)
 }
+
+// SecondBranchVariants derives, from a program with at least one branch, the programs in which the source of
+// a branch carries a second branch whose target set overlaps the first one (several branches of one node
+// converging on a successor). Targets are taken from the program's nodes and END; acyclic programs stay acyclic.
+func SecondBranchVariants(p *Prog, acyclic bool) []*Prog {
+	var out []*Prog
+	cands := []string{}
+	for _, n := range p.Nodes {
+		cands = append(cands, n.Key)
+	}
+	cands = append(cands, END)
+	seen := map[string]bool{}
+	for bi, b := range p.Branches {
+		// only one extra branch per source
+		cnt := 0
+		for _, o := range p.Branches {
+			if o.From == b.From {
+				cnt++
+			}
+		}
+		if cnt > 1 {
+			continue
+		}
+		for i := 0; i < len(cands); i++ {
+			for j := i + 1; j < len(cands); j++ {
+				t2 := []string{cands[i], cands[j]}
+				overlap, same := 0, 0
+				for _, t := range t2 {
+					for _, u := range b.Targets {
+						if t == u {
+							overlap++
+						}
+					}
+					if t == b.From {
+						same++
+					}
+				}
+				if overlap == 0 || (overlap == 2 && len(b.Targets) == 2) {
+					continue
+				}
+				if acyclic && same > 0 {
+					continue
+				}
+				// skip targets that are also plain-edge successors of the source (duplicate arcs)
+				dupEdge := false
+				for _, e := range p.Edges {
+					if e.From == b.From && (e.To == t2[0] || e.To == t2[1]) {
+						dupEdge = true
+					}
+				}
+				if dupEdge {
+					continue
+				}
+				for _, multi := range []bool{false, true} {
+					q := *p
+					q.Branches = append(append([]Branch{}, p.Branches[:bi+1]...), Branch{From: b.From, Targets: t2, Multi: multi})
+					q.Branches = append(q.Branches, p.Branches[bi+1:]...)
+					if acyclic && HasCycle(&q) {
+						continue
+					}
+					c := canonical(&q)
+					if !seen[c] {
+						seen[c] = true
+						qq := q
+						out = append(out, &qq)
+					}
+				}
+			}
+		}
+	}
+	return out
+}
